@@ -8,12 +8,13 @@ use serde_json::json;
 pub fn run(ctx: &mut Ctx, which: &str) {
     let quick = ctx.quick();
     let d = if quick { 1 } else { 2 };
-    ctx.set("rule", json!(format!("E3 x E2: bounded-exhaustive CLP(FD) programs — T1: one constraint of every kind x every operand pattern over 3 variables and constants {{-1,0,2}} (all aliasings) x every domain assignment x every order of the statements; T2: pairs/triples of constraints sharing variables mixed with `==`, all (quick: every third) statement orders; T3: answers bound to lists, improper lists, compounds, hidden FD variables, FD under conde — each run under every hash-order schedule with <= d deviations (sites run_constraints, process_extension_fd, enforce_constraints_fd) plus all-reversed; oracle = brute force over the domain product ({}). distinct_nontrivial = programs with at least one solution.", if which == "C16" { "every answer is a solution" } else { "every solution is returned exactly once" })));
+    ctx.set("rule", json!(format!("E3 x E2: bounded-exhaustive CLP(FD) programs — T1: one constraint of every kind x every operand pattern over 3 variables and constants {{-1,0,2}} (all aliasings) x every domain assignment x every order of the statements; T2: pairs/triples of constraints sharing variables mixed with `==`, all (quick: every third) statement orders; T3: answers bound to lists, improper lists, compounds, hidden FD variables, FD under conde; T4: plusz / timesz equations over variables that carry finite domains, alone and next to an FD constraint or a binding, every statement order — each run under every hash-order schedule with <= d deviations (sites run_constraints, process_extension_fd, enforce_constraints_fd) plus all-reversed; oracle = brute force over the domain product ({}). distinct_nontrivial = programs with at least one solution.", if which == "C16" { "every answer is a solution" } else { "every solution is returned exactly once" })));
     ctx.set("deviation_bound", json!(d));
     let families: Vec<(&str, Vec<Program>, usize)> = vec![
         ("fd-t1", fd::tier1(false), if quick { 1 } else { 2 }),
         ("fd-t2", fd::tier2(quick), d),
         ("fd-t3", fd::tier3(quick), d),
+        ("fd-t4", fd::tier4(quick), d),
     ];
     let mut schedules = 0u64;
     let mut max_points = 0usize;
